@@ -529,7 +529,7 @@ pub fn tokens_from_choices<H: Harness>(h: &H, cfg: &H::Cfg, choices: &[u32]) -> 
 
 pub fn default_deadline(tier: &str) -> Instant {
     let secs = std::env::var("VERIF_TIME_CAP_S").ok().and_then(|s| s.parse::<u64>().ok()).unwrap_or(if tier == "quick" {
-        300
+        900
     } else {
         3 * 3600
     });
